@@ -574,6 +574,34 @@ pub fn verify_bucket_reads(b: &Bucket, mb: &MBucket) -> Option<String> {
     }
     // seek on a sample of probes (every 3rd) plus full tail check
     let all = mb.items();
+    // the provided Iterator methods an implementation may override (a shortcut that looks at pages instead of
+    // stepping must see the transaction's own changes as well)
+    {
+        let got = b.cursor().last().map(|d| item_of(&d));
+        if got.as_ref() != all.last() {
+            return Some(format!("cursor().last() = {:?}, model {:?}", got.as_ref().map(|i| show(i.key())), all.last().map(|i| show(i.key()))));
+        }
+        let n = b.cursor().count();
+        if n != all.len() {
+            return Some(format!("cursor().count() = {}, model {}", n, all.len()));
+        }
+        if !all.is_empty() {
+            let k = all.len() / 2;
+            let got = b.cursor().nth(k).map(|d| item_of(&d));
+            if got.as_ref() != all.get(k) {
+                return Some(format!("cursor().nth({}) = {:?}, model {:?}", k, got.as_ref().map(|i| show(i.key())), all.get(k).map(|i| show(i.key()))));
+            }
+        }
+        let kvs: Vec<&Item> = all.iter().filter(|i| matches!(i, Item::Kv(..))).collect();
+        let got = b.kv_pairs().last().map(|kv| kv.key().to_vec());
+        if got.as_deref() != kvs.last().map(|i| i.key()) {
+            return Some(format!("kv_pairs().last() = {:?}, model {:?}", got.as_ref().map(|k| show(k)), kvs.last().map(|i| show(i.key()))));
+        }
+        let nb = b.buckets().count();
+        if nb != all.len() - kvs.len() {
+            return Some(format!("buckets().count() = {}, model {}", nb, all.len() - kvs.len()));
+        }
+    }
     for (i, k) in probes.iter().enumerate() {
         if i % 3 != 0 && probes.len() > 12 {
             continue;
